@@ -364,6 +364,12 @@ func newEventFromUntrustedJSONV1(eventJSON []byte, roomVersion IRoomVersion) (PD
 		}
 	}
 
+	// EventID() and Redact() cannot report an error: they panic on events that cannot be
+	// redacted (content that is not an object, or that holds a number too large to decode).
+	if _, err = roomVersion.RedactEventJSON(eventJSON); err != nil {
+		return nil, fmt.Errorf("gomatrixserverlib: event cannot be redacted: %w", err)
+	}
+
 	err = CheckFields(res)
 
 	return res, err
